@@ -30,7 +30,7 @@ func valBed(v Val) *bed.BED {
 	rgb := v.At(9)
 	return &bed.BED{N: v.At(0).Int(), Chrom: v.At(1).Str(), ChromStart: v.At(2).Int(), ChromEnd: v.At(3).Int(),
 		Name: v.At(4).Str(), Score: v.At(5).Int(), Strand: v.At(6).Str(), ThickStart: v.At(7).Int(),
-		ThickEnd: v.At(8).Int(),
+		ThickEnd:   v.At(8).Int(),
 		ItemRGB:    [3]byte{byte(rgb.At(0).Int()), byte(rgb.At(1).Int()), byte(rgb.At(2).Int())},
 		BlockCount: v.At(10).Int(), BlockSizes: v.At(11).IntList(), BlockStarts: v.At(12).IntList()}
 }
@@ -190,6 +190,12 @@ func clipBytes(b []byte) string {
 
 // bed_write: record -> [i0 [[chunks] bytes]] | [i1]
 var kBedWrite = register(&Kind{Name: "bed_write",
+	Project: func(out Val) Val {
+		if !isOk(out) {
+			return out
+		}
+		return vOk(out.At(1).At(1))
+	},
 	Impl: func(in Val) Val {
 		b := valBed(in)
 		w := &chunkWriter{}
